@@ -53,7 +53,7 @@ def reduce_pairs(rng, tier):
                 if nkeys == 1 and n >= 4 and rng.random() < (0.7 if tier == "quick" else 0.3):
                     continue
                 vals = [rng.pick(C.VALS) for _ in range(n)]
-                base = C01.draw_cover(rng, [r[0] for r in rows], vals, mbn, embs)
+                base = C01.draw_cover(rng, [r[0] for r in rows], vals, mbn, embs, strategy=False)
                 kencs = [rng.pick(["f64", "str", "M8", "cat"]) for _ in range(nkeys)]
                 base["keys"], base["kenc"] = [list(r) for r in rows], kencs
                 if base["mask"]["k"] not in ("none", "bool"):
